@@ -177,7 +177,7 @@ def canon(v, depth=0):
     if isinstance(v, (bool, int, str, type(None))):
         return v
     if isinstance(v, float):
-        return repr(v)
+        return repr(float(v))  # (numpy.float64 is a float too; equal values compare equal)
     if isinstance(v, Vector):
         return ["V"] + [repr(float(c)) for c in v]
     if isinstance(v, Orientation):
